@@ -244,4 +244,104 @@ for ename, enabled in enabled_values().items():
                                                     "ok": run_call(lambda: Derived().f(1)), "bad": run_call(lambda: Derived().f(-1)),
                                                     "bad2": run_call(lambda: Derived().f(60))}
 
+# ---- scenarios with EXPLICITLY enabled contracts only: whatever they give, they give it in every interpreter mode
+REPORT["cross_mode"] = {}
+
+
+async def averdict(value):
+    return value
+
+
+def scenario(name, thunk):
+    REPORT["cross_mode"][name] = run_call(thunk)
+
+
+def _coroutine_invariant():
+    @icontract.invariant(lambda self: averdict(False), enabled=True)
+    class CI:
+        def __init__(self):
+            self.v = 1
+
+    return type(CI()).__name__
+
+
+def _coroutine_condition():
+    @icontract.require(lambda x: averdict(False), enabled=True)
+    def f(x):
+        return x
+
+    return f(1)
+
+
+def _coroutine_capture():
+    @icontract.snapshot(lambda x: averdict(x), name="s", enabled=True)
+    @icontract.ensure(lambda OLD, result: True, enabled=True)
+    def f(x):
+        return x
+
+    return f(1)
+
+
+def _require_added_to_inherited_groups():
+    class B0(icontract.DBC):
+        @icontract.require(lambda x: x > 0, enabled=True)
+        def f(self, x):
+            return x
+
+    class B1(B0):
+        @icontract.require(lambda x: x < -100, enabled=True)
+        def f(self, x):
+            return x
+
+    # a further precondition applied afterwards to a checker that holds two (inherited) groups
+    B1.f = icontract.require(lambda x: x == 7, enabled=True)(B1.f)
+    return [B1().f(7), len(B1.f.__preconditions__)]
+
+
+def _weaken_enabled_base():
+    class W0(icontract.DBC):
+        @icontract.require(lambda x: x > 0, enabled=True)
+        def f(self, x):
+            return x
+
+    class W1(W0):
+        @icontract.require(lambda x: x < -10, enabled=True)
+        def f(self, x):
+            return x
+
+    return [W1().f(5), W1().f(-20)]
+
+
+def _weaken_enabled_base_violation():
+    class V0(icontract.DBC):
+        @icontract.require(lambda x: x > 0, enabled=True)
+        def f(self, x):
+            return x
+
+    class V1(V0):
+        @icontract.require(lambda x: x < -10, enabled=True)
+        def f(self, x):
+            return x
+
+    return V1().f(-5)
+
+
+def _invalid_error_argument():
+    return icontract.require(lambda x: x > 0, error=42, enabled=True)
+
+
+def _snapshot_without_postcondition():
+    @icontract.snapshot(lambda x: x, enabled=True)
+    def f(x):
+        return x
+
+    return f(1)
+
+
+for _name, _thunk in (("coroutine-invariant", _coroutine_invariant), ("coroutine-condition", _coroutine_condition),
+                      ("coroutine-capture", _coroutine_capture), ("require-added-to-inherited-groups", _require_added_to_inherited_groups),
+                      ("weaken-enabled-base", _weaken_enabled_base), ("weaken-enabled-base-violation", _weaken_enabled_base_violation),
+                      ("invalid-error-argument", _invalid_error_argument), ("snapshot-without-postcondition", _snapshot_without_postcondition)):
+    scenario(_name, _thunk)
+
 print("REPORT=" + json.dumps(REPORT, sort_keys=True))
